@@ -13,9 +13,9 @@ if [ -d "$W/_seed" ]; then
   git -C /repo worktree remove --force $W
 fi
 S=/var/tmp/sigpy-seedtest-$$
-rm -rf $S; git clone -q --shared /repo $S || exit 2
-git -C $S apply /verif/seeded/$NAME/patch.diff || { rm -rf $S; exit 2; }
+rm -rf $S; git -C /repo worktree prune; git -C /repo worktree add -q --detach $S HEAD || exit 2
+git -C $S apply /verif/seeded/$NAME/patch.diff || { git -C /repo worktree remove --force $S; exit 2; }
 cd /verif
 for p in "$@"; do SIGPY_REPO=$S ./check $p 2>&1 | tail -3 | cut -c1-260; done
-rm -rf $S
+git -C /repo worktree remove --force $S
 exit 0
